@@ -66,7 +66,9 @@ BUILTIN = {
     'tz': ['True', 'None', 'Exception', 'NotImplemented', 'SystemExit', 'Eval', 'eval'],
     'unit': ['eval', 'open', 'exec', 'print', 'compile', '__import__'],
     'name': ['eval', 'open', 'exec', '__import__', 'hex', 'compile', 'globals', 'print', 'getattr', 'id', 'True',
-             'None', 'NOT_FOUND', '_get_path', 'Uri', 'Ref', 'b64', 'os.system'],
+             'None', 'NOT_FOUND', '_get_path', 'Uri', 'Ref', 'b64', 'os.system',
+             # names of codecs the standard library would have to IMPORT to honour
+             'rot_13', 'punycode', 'hz', 'idna', 'cp037', 'bz2_codec', 'uu_codec', 'quopri_codec', 'unicode_escape', 'undefined'],
     'quoted': ['eval', '__import__', 'open', 'exec', 'os.system', '__builtins__'],
     'number': ['eval', 'inf', 'nan', 'INF', 'Nan', '-INF', 'None'],
 }
@@ -106,7 +108,8 @@ def payloads(cls, pos, tier):
     else:
         raise MachineryError('unknown payload class %r' % cls)
     if tier == 'quick':
-        xs = xs[:QUICK_N.get(cls, 2)]
+        keep = [x for x in xs if x[0] in ('rot_13', 'punycode')] if pos == 'xstr_type' else []
+        xs = xs[:QUICK_N.get(cls, 2)] + keep
     return xs
 
 
@@ -233,6 +236,9 @@ class Env(object):
         self.rows.append({'id': 'x2', 'b': 'abc', 'q': 'abc', 'yy': self.hs.MARKER, 'vv': self.hs.MARKER, 'abc': 'red',
                           'siteRef': self.hs.Ref('x1')})
         self.rows.append({'id': 'x3', 'b': 5.0, 'q': 5.0})
+        X = self.hs.XStr
+        self.rows.append({'id': 'x4', 'b': X('Color', 'red'), 'q': X('rot_13', 'today'), 'abc': X('punycode', 'today'),
+                          'a': X('hex', 'ff'), 'p': X('eval', '1')})
         self.empty = self.hs.Grid(version='3.0', columns=[(c, {}) for c in cols])
         self.empty.metadata['dis'] = 'c12'
 
@@ -249,7 +255,9 @@ class Env(object):
     # -- canary probes
     def probes(self):
         return {'environ': dict(os.environ), 'file': sorted(os.listdir(self.canary)),
-                'builtins': dict(vars(builtins)), 'modules': set(sys.modules), 'cwd': os.getcwd()}
+                'builtins': dict(vars(builtins)), 'modules': set(sys.modules), 'cwd': os.getcwd(),
+                'interp': (sys.getrecursionlimit(), sys.getswitchinterval(), tuple(sys.path), len(sys.meta_path),
+                           len(sys.path_hooks), sys.gettrace(), sys.getprofile())}
 
     def flags(self, p0):
         """names of the probes that changed since p0; the changes are undone (files stay: fresh names)"""
@@ -282,6 +290,14 @@ class Env(object):
         if os.getcwd() != p0['cwd']:
             out.append('cwd')
             os.chdir(p0['cwd'])
+        now = (sys.getrecursionlimit(), sys.getswitchinterval(), tuple(sys.path), len(sys.meta_path), len(sys.path_hooks),
+               sys.gettrace(), sys.getprofile())
+        if now != p0['interp']:
+            # interpreter-wide settings: recursion limit, switch interval, import path and hooks, trace / profile functions
+            out.append('interp')
+            sys.setrecursionlimit(p0['interp'][0])
+            sys.setswitchinterval(p0['interp'][1])
+            sys.path[:] = list(p0['interp'][2])
         return out
 
     # -- module globals
@@ -389,6 +405,13 @@ class Env(object):
             raise
         except self.parse_base as e:
             out, exc = 'parse', type(e).__name__
+        except RecursionError as e:
+            # nesting beyond what the interpreter's stack allows is a refusal of the text, not an effect of its content
+            # (only for the hand-written texts nested > 50 deep: a resource limit, outside the property)
+            if text.count('(') + text.count('[') + text.count('not ') > 50:
+                out, exc = 'parse', type(e).__name__
+            else:
+                out, exc = 'other', type(e).__name__
         except BaseException as e:          # noqa -- anything else, SystemExit included, is an observation
             out, exc = 'other', type(e).__name__
         events, REC.events = REC.events, []
@@ -498,6 +521,14 @@ def build_plan(lines, tier):
                                            'esc': '', 'ctx': ln['ctx']})
         else:
             raise MachineryError('unknown line kind %r' % (ln.get('g'),))
+    # hand-written texts that are no filters: nesting far deeper than any filter has (a parser that raises its limits
+    # for them must put them back), unterminated literals full of brackets
+    some = next(iter(invalid.values()))['items'][0] if invalid else None
+    if some is not None:
+        texts = ['(' * 60 + 'a', '(' * 200, 'a == "' + '(' * 80, 'a and (' * 40 + 'b', '(' * 55 + 'a' + ')' * 54,
+                 'a == [' + '[' * 70, 'a == `' + '(' * 60, 'not ' * 60 + 'a', '(' * 51 + ' a ==']
+        invalid['handwritten_deep'] = {'k': 'invalid', 'shape': ('*', 'invalid', 'handwritten_deep', 'none'), 'items': [
+            {'text': t, 'cls': 'invalid', 'mode': 'text', 'pay': '', 'pay2': '', 'esc': '', 'ctx': some['ctx']} for t in texts]}
     return benign, [payload[k] for k in sorted(payload)], [invalid[k] for k in sorted(invalid)]
 
 
